@@ -396,8 +396,8 @@ func (fx *FnCtx) builtin(st *State, name string, call *ast.CallExpr) []Val {
 			nb := fx.allocRef(st, "backing")
 			st.assume(fmt.Sprintf("(= (bid_%s %s) (ite (<= (len_%s %s) (cap_%s %s)) (bid_%s %s) %s))", s.S, r, s.S, r, s.S, s.T, s.S, s.T, nb))
 			el := fx.sc.elemFn(s.S)
-			st.assume(fmt.Sprintf("(forall ((i Int)) (! (=> (and (<= 0 i) (< i (len_%s %s))) (= (%s %s i) (%s %s i))) :pattern ((%s %s i))))",
-				s.S, s.T, el, r, el, s.T, el, r))
+			st.assume(fmt.Sprintf("(forall ((i Int)) (! (=> (and (<= 0 i) (< i (len_%s %s))) (= (%s %s i) (%s %s i))) :pattern ((%s %s i)) :pattern ((%s %s i))))",
+				s.S, s.T, el, r, el, s.T, el, r, el, s.T))
 			st.assume(fmt.Sprintf("(forall ((i Int)) (! (=> (and (<= 0 i) (< i (len_%s %s))) (= (%s %s (+ (len_%s %s) i)) (%s %s i))) :pattern ((%s %s i))))",
 				b.S, b.T, el, r, s.S, s.T, fx.sc.elemFn(b.S), b.T, fx.sc.elemFn(b.S), b.T))
 			// the same fact indexed from the result (so that a goal about elem(r, j) finds it)
